@@ -95,6 +95,10 @@ def observe(case):
                 rec["mons"].append({"name": f"record {dn}.{k} missing in the complex run", "d": 2_000_000_000, "two": True})
                 continue
             scale = float(np.max(np.abs(r)))
+            if "poynting" in k:
+                # E x H is a difference of products: its rounding noise scales with |E||H|, not with the (possibly
+                # cancelling) flux itself (observed 7.5e-11 of the flux maximum on the unchanged tree, seed 1)
+                scale = max(scale, float(np.max(np.abs(Er))) * float(np.max(np.abs(Hr))))
             rec["mons"].append({"name": f"record {dn}.{k} differs between complex and real storage", "d": Y.scaled(Y.rel_dev(c, r, scale)), "two": True})
     rec["nonzero"] = bool(np.max(np.abs(Er)) > 0 and all(np.max(np.abs(Dr[dn][k])) > 0 for dn in Dr for k in Dr[dn]))
     return rec
